@@ -54,6 +54,29 @@ MUTATIONS = {
                "        copy = lambda t: t\n"
                "      if output_value:",
                'call sites of user predicates write into the callee signature'),
+    'lastcondonly': (TI + 'infer.py',
+                     "      for if_then in node['implication']['if_then']:\n"
+                     "        reference_algebra.Unify(\n"
+                     "          if_then['condition']['type']['the_type'],\n"
+                     "          reference_algebra.TypeReference('Bool')\n"
+                     "        )\n",
+                     "      for if_then in node['implication']['if_then']:\n"
+                     "        pass\n"
+                     "      reference_algebra.Unify(\n"
+                     "        if_then['condition']['type']['the_type'],\n"
+                     "        reference_algebra.TypeReference('Bool'))\n"
+                     "      for if_then in node['implication']['if_then']:\n",
+                     'only the last condition of an else-if chain must be Bool'),
+    'listelemclash': (TI + 'reference_algebra.py',
+                      "      if a_element.TargetTypeClassName() == 'BadType':\n"
+                      "        a.target, b.target = (\n"
+                      "          Incompatible(a.target, b.target),\n"
+                      "          Incompatible(b.target, a.target))\n"
+                      "        return\n"
+                      "      a.target = [a_element]",
+                      "      a.target = [a_element]",
+                      'an element clash between two lists is not a clash of '
+                      'the lists'),
     'listsig': (TI + 'types_of_builtins.py',
                 "        'List': {\n            0: e,\n            'logica_value': list_of_e",
                 "        'List': {\n            0: e,\n            'logica_value': e",
